@@ -81,7 +81,16 @@ func NewLevelListFromDocument(fs storage.FileSystem, dataOwnership kv.DataOwners
 }
 
 func (ll *LevelList) Get(key []byte) (kv.Entry, error) {
+	// L0 tables may overlap so every L0 table that has the key is consulted and
+	// the entry with the highest sequence number wins. Below L0 a key is in at
+	// most one table per level and upper levels are newer, so the first hit is
+	// the newest.
+	var newest kv.Entry
+	l0Tables := ll.At(0).tables
 	for t := range ll.AllTablesForKey(key) {
+		if newest != nil && !l0Tables.Has(t) {
+			break
+		}
 		v, err := t.Get(key)
 		if err != nil {
 			if err == kv.ErrNotFound {
@@ -89,7 +98,12 @@ func (ll *LevelList) Get(key []byte) (kv.Entry, error) {
 			}
 			return nil, fmt.Errorf("table %#v, %w", t, err)
 		}
-		return v, nil
+		if newest == nil || v.SeqNum() > newest.SeqNum() {
+			newest = v
+		}
+	}
+	if newest != nil {
+		return newest, nil
 	}
 	return nil, kv.ErrNotFound
 }
